@@ -133,3 +133,36 @@ Definition setb_prog : xprog :=
             [XYield (1#4); XYield (1#4); XSetBeats 0 0; XYield (1#4); XSend (Some 0) [EMsg 1]; XYield (1#2); XSend (Some 0) [EMsg 2]];
             [XYield (3#4); XSend (Some 0) [EMsg 3]; XYield (1#4); XSend (Some 0) [EMsg 4]]] 0 0 1 0.
 Definition setb_sched : list (nat * Q) := [wk 0 2; wk 1 2; wk 2 2; wk 1 3; wk 1 3; wk 2 3; wk 1 4; wk 2 4; wk 1 5].
+
+(* ---- a task before the start of the score ------------------------------------------------------------------------ *)
+(* the root jumps TempoClock(1) forward to beat 10 at 1/8 s while routine 1 is pending at beat 1/4: its task is now due at
+   1/8 + (1/4 - 10) = -77/8 s, BEFORE the start.  The real-time clock performs it at once and the bundle goes out (the
+   offset of the timetags makes the tag positive); the non-real-time score cannot hold a negative timetag: the send raises
+   (OscBundleBuildError) and the routine ends there.  The wake-ups are performed in the scheduler's order in both modes. *)
+Definition neg_prog : xprog :=
+  mkXP [1] [[XPlay 1 (CTempo 0); XYield (1#8); XSetBeats 0 10; XYield (1#8)];
+            [XYield (1#4); XSend None [EMsg 1]; XYield (1#4)]] 0 0 1 0.
+Definition neg_sched : list (nat * Q) := [wk 0 0; wk 1 0; wk 0 (1#8); wk 1 (1#8); wk 0 (1#4)].
+Lemma before_start_refuted :
+  let s := xrt_run kgen 100 neg_prog 0 neg_sched in
+  xs_bad s = false /\ xs_early s = false /\
+  map fst neg_sched = xnrt_order kgen neg_prog (length neg_sched) (xnrt_init neg_prog) /\
+  snd (xnrt_follow kgen neg_prog (map fst neg_sched)) = false /\
+  ob_resumes (obs_rt kgen 100 neg_prog 0 neg_sched) = ob_resumes (obs_nrt kgen neg_prog 5) /\
+  In (rs 1 1 (-77#8)) (ob_resumes (obs_nrt kgen neg_prog 5)) /\
+  ob_bundles (obs_rt kgen 100 neg_prog 0 neg_sched) = [(-77#8, (None, [EMsg 1]))] /\
+  ob_bundles (obs_nrt kgen neg_prog 5) = [] /\
+  ob_ends (obs_rt kgen 100 neg_prog 0 neg_sched) = [(0%nat, 2%nat, false)] /\
+  ob_ends (obs_nrt kgen neg_prog 5) = [(1%nat, 1%nat, true); (0%nat, 2%nat, false)].
+Proof. vm_compute. repeat split; try reflexivity. right; right; right; left; reflexivity. Qed.
+
+(* ---- two accepted, complete real-time executions of one seeded program with different values ----------------------- *)
+Definition cross_sched_ordered : list (nat * Q) := [wk 0 0; wk 1 0; wk 2 0; wk 1 (1#8); wk 2 (1#8); wk 0 (1#4)].
+Lemma rt_order_dependent :
+  let s1 := xrt_run kgen 0 cross_prog 0 cross_sched in
+  let s2 := xrt_run kgen 0 cross_prog 0 cross_sched_ordered in
+  xs_bad s1 = false /\ xs_bad s2 = false /\ xs_early s1 = false /\ xs_early s2 = false /\
+  n_q (x_n (xs s1)) = [] /\ n_q (x_n (xs s2)) = [] /\
+  ob_vals (obs_rt kgen 0 cross_prog 0 cross_sched) = [VDraw 2 1 1 0 5000; VDraw 1 1 1 0 5001] /\
+  ob_vals (obs_rt kgen 0 cross_prog 0 cross_sched_ordered) = [VDraw 1 1 1 0 5000; VDraw 2 1 1 0 5001].
+Proof. vm_compute. repeat split; reflexivity. Qed.
